@@ -67,6 +67,42 @@ macro_rules! adapter {
                 Ok((b, 0)) if b == v => {}
                 other => return Err(fail("fixint", format!("{}: decoding {} through from_eio with an empty scratch buffer gave {:?}", $label, hex(&got), other), cj())),
             }
+            // a reader that delivers one or two bytes per call and reports Interrupted in between (not an error by the
+            // std::io convention) yields the same value
+            {
+                let mut empty: [u8; 0] = [];
+                let rd = crate::iodoubles::ChunkReader::new(&got, Schedule { chunks: vec![1, 2], interrupt_every: 2 + (before as usize % 3) }, Fault::None);
+                let r = no_panic(|| postcard::from_io::<$sname, _>((rd, &mut empty[..])).map(|(v, _)| v)).map_err(|p| fail("fixint", format!("from_io panicked: {}", p), cj()))?;
+                if r.as_ref() != Ok(&v) {
+                    return Err(fail("fixint", format!("{}: decoding {} through a reader with short reads and Interrupted gave {:?}", $label, hex(&got), r), cj()));
+                }
+            }
+            // COBS-framed: the frame is the COBS transform of the same bytes, and decodes back - also when the fixed-width
+            // field closes a message that ends on / right behind a full 254-byte block
+            {
+                #[derive(Serialize, Deserialize, PartialEq, Debug)]
+                struct Padded {
+                    pad: Vec<u8>,
+                    #[serde(with = $module)]
+                    x: $t,
+                }
+                for padlen in [0usize, 250 + (after as usize % 8), 251usize.saturating_sub(N), 252usize.saturating_sub(N) + (before as usize % 3)] {
+                    let p = Padded { pad: vec![0x5A; padlen], x };
+                    let mut plain = crate::refcodec::ref_encode(&Shape::U64, &Value::U(padlen as u128)).unwrap().bytes;
+                    plain.extend(std::iter::repeat(0x5A).take(padlen));
+                    plain.extend_from_slice(&want[1..1 + N]);
+                    let frame = crate::refcobs::frame(&plain);
+                    let enc = no_panic(|| postcard::to_allocvec_cobs(&p)).map_err(|p| fail("fixint", format!("to_allocvec_cobs panicked: {}", p), cj()))?;
+                    if enc.as_ref() != Ok(&frame) {
+                        return Err(fail("fixint", format!("{}: COBS-framed encoding with {} pad bytes = {:?}, expected {}", $label, padlen, enc.map(|b| hex(&b)), hex(&frame)), cj()));
+                    }
+                    let mut f2 = frame.clone();
+                    let back = no_panic(|| postcard::from_bytes_cobs::<Padded>(&mut f2)).map_err(|p| fail("fixint", format!("from_bytes_cobs panicked: {}", p), cj()))?;
+                    if back.as_ref() != Ok(&p) {
+                        return Err(fail("fixint", format!("{}: COBS-framed message with {} pad bytes decodes as {:?}", $label, padlen, back.map(|b| b.x)), cj()));
+                    }
+                }
+            }
             // the writer path emits the same bytes
             let via_w = no_panic(|| postcard::to_io(&v, Vec::<u8>::new())).map_err(|p| fail("fixint", format!("to_io panicked: {}", p), cj()))?;
             if via_w.as_deref() != Ok(&want[..]) {
@@ -180,7 +216,7 @@ pub fn run(ctx: &Ctx) {
         "cases: 16 structs {before: u8, #[serde(with = fixint::le|be)] x: T, after: u16} for T in u16..u128, i16..i128; all 65536 \
          values for the 16-bit types; for wider types every single-non-zero-byte pattern (position x 255), boundaries and \
          bit-length-stratified random values. oracle: bytes == [before] ++ the integer's bytes in the chosen order (extracted by \
-         shifting) ++ varint(after); decode returns the original (slice, from_io, from_eio); to_io into a whole-buffer writer and into a writer accepting 1..8 bytes per call (with Interrupted) delivers the same bytes; to_slice into a buffer of exactly the encoded length succeeds also when the fixed-width field is last ({head: u16, x}) and one byte less is SerializeBufferFull; a field one byte short is UnexpectedEnd. non-trivial = value \
+         shifting) ++ varint(after); decode returns the original (slice, from_io, from_eio, from_io with short reads + Interrupted); COBS-framed encoding of {pad, x} with 0 / ~250 pad bytes equals the COBS transform of the same bytes and decodes back; to_io into a whole-buffer writer and into a writer accepting 1..8 bytes per call (with Interrupted) delivers the same bytes; to_slice into a buffer of exactly the encoded length succeeds also when the fixed-width field is last ({head: u16, x}) and one byte less is SerializeBufferFull; a field one byte short is UnexpectedEnd. non-trivial = value \
          whose little- and big-endian byte strings differ; distinct = hash(adapter, value)",
     );
     let ads = adapters();
